@@ -3,7 +3,7 @@
 Steps, each in a fresh scratch worktree of /repo under /tmp (removed afterwards):
  1. demo on unchanged code must PASS; 2. patch applies, builds, whole existing suite passes;
  3. demo with the patch must FAIL; 4. run the static checks on the patched tree (all properties).
-Usage: verify_seed.py /tmp/seed/C03-a [...]"""
+Usage: verify_seed.py [--round 2] /tmp/seed/C03-a [...]   (--round N files C03-a as C03-rN-a)"""
 import json, os, shutil, subprocess, sys, tempfile
 
 HERE = os.path.dirname(os.path.dirname(os.path.abspath(__file__)))
@@ -14,8 +14,13 @@ for k in ("GOWORK", "GOSUMDB", "GOTOOLCHAIN"):
 def sh(cmd, cwd):
     return subprocess.run(cmd, cwd=cwd, env=ENV, shell=True, capture_output=True, text=True, errors="replace")
 
+ROUND = None
+
 def verify(src):
     sid = os.path.basename(src.rstrip("/"))
+    if ROUND:
+        p, _, x = sid.partition("-")
+        sid = "%s-r%s-%s" % (p, ROUND, x)
     meta = json.load(open(os.path.join(src, "meta.json")))
     wt = tempfile.mkdtemp(prefix="klogsa-vs-")
     os.rmdir(wt)
@@ -66,6 +71,10 @@ def verify(src):
         subprocess.run(["git", "-C", "/repo", "worktree", "remove", "--force", wt])
         shutil.rmtree(wt, ignore_errors=True)
 
-for s in sys.argv[1:]:
+args = sys.argv[1:]
+if args and args[0] == "--round":
+    ROUND = args[1]
+    args = args[2:]
+for s in args:
     r = verify(s)
     print(json.dumps(r, indent=1))
